@@ -203,12 +203,13 @@ CHECKS = {
         "(ending kind, code/signal class, op-sequence shape)",
         {"status_returns": 1500, "stable_rechecks": 500, "codes_seen": 250}, assumptions=KERNEL_TRUST),
     "C06": scen_check(
-        [("eng_life", "asan"), ("eng_fault", "asan-nd")], "fault_enumeration",
+        [("eng_life", "asan"), ("eng_fault", "asan-nd"), ("eng_seq", "asan-nd")], "fault_enumeration",
         "union of the life-engine workloads (status histories, stop grids, destroy states) plus the complete start-time "
         "fault campaign of C04 followed by pid/start/terminate/kill/wait/terminate/kill/destroy; every kill/waitpid "
         "the library issues is checked against the set of live, unreaped children it forked (signals to pid<=0 are "
-        "blocked, not forwarded); non-trivial = at least one kill or waitpid record observed",
-        {"kill_records": 500, "waitpid_records": 500, "post_reap_signal_calls": 50}, assumptions=KERNEL_TRUST),
+        "blocked, not forwarded), plus the scripted API calls on the child side of a fork-mode start, where the handle refers to no "
+        "child at all; non-trivial = at least one kill or waitpid record observed",
+        {"kill_records": 500, "waitpid_records": 500, "post_reap_signal_calls": 50, "fork_child_calls": 300}, assumptions=KERNEL_TRUST),
     "C07": scen_check(
         [("eng_life", "asan"), ("eng_life", "asan-nd", {"tiers": ["thorough"]})], "exploration",
         "stop requests from the grid action^3 in {noop,wait,terminate,kill,7} x timeout^3 in {0,40,INFINITE,DEADLINE} "
